@@ -33,6 +33,15 @@ std::vector<uint8_t> Bytes(const std::string& tag, size_t n)
     return rng.randbytes<uint8_t>(n);
 }
 
+//! payload bytes of a payload id (generated once per process: some are megabytes long)
+const std::vector<uint8_t>& Payload(const std::string& id, size_t n)
+{
+    static std::map<std::string, std::vector<uint8_t>> cache;
+    auto it = cache.find(id);
+    if (it == cache.end() || it->second.size() != n) it = cache.insert_or_assign(id, Bytes("payload " + id, n)).first;
+    return it->second;
+}
+
 constexpr size_t MAX_CONTENTS = 1 + 12 + 4000000;
 
 //! The harness's own BIP324 endpoint, following specs/Transport/Transport.tla (not V2Transport).
@@ -170,7 +179,7 @@ public:
 struct World {
     std::unique_ptr<Transport> tr[2];
     ScriptedV2* scripted[2]{nullptr, nullptr};
-    std::map<std::string, std::vector<uint8_t>> payloads;
+    std::map<std::string, const std::vector<uint8_t>*> payloads;
     std::map<std::string, int> sids;
     UniValue recvlog[2]{UniValue{UniValue::VARR}, UniValue{UniValue::VARR}};
     bool failed[2]{false, false};
@@ -180,7 +189,7 @@ struct World {
     explicit World(const UniValue& init)
     {
         const UniValue& cfg = init["cfg"];
-        for (const auto& p : cfg["plen"].getKeys()) payloads[p] = Bytes("payload " + p, cfg["plen"][p].getInt<int64_t>());
+        for (const auto& p : cfg["plen"].getKeys()) payloads[p] = &Payload(p, cfg["plen"][p].getInt<int64_t>());
         for (const auto& t : cfg["sids"].getKeys()) sids[t] = cfg["sids"][t].getInt<int>();
         const auto magic0 = Params().MessageStart()[0];
         for (int s = 0; s < 2; ++s) {
@@ -210,7 +219,7 @@ struct World {
     }
     std::string PayloadId(std::span<const std::byte> data) const
     {
-        for (const auto& [id, b] : payloads) if (b.size() == data.size() && std::ranges::equal(MakeByteSpan(b), data)) return id;
+        for (const auto& [id, b] : payloads) if (b->size() == data.size() && std::ranges::equal(MakeByteSpan(*b), data)) return id;
         return "garbled(" + std::to_string(data.size()) + " bytes)";
     }
     // k bytes of direction d; returns {ok, n}
@@ -245,7 +254,7 @@ struct World {
         const std::string op = a[0].get_str();
         const int s = a[1].getInt<int>() - 1;
         if (op == "send") {
-            CSerializedNetMsg msg; msg.m_type = a[2].get_str(); msg.data = payloads.at(a[3].get_str());
+            CSerializedNetMsg msg; msg.m_type = a[2].get_str(); msg.data = *payloads.at(a[3].get_str());
             return UniValue{tr[s]->SetMessageToSend(msg)};
         }
         if (op == "decoy") {
@@ -306,6 +315,7 @@ struct World {
         return Obj({{"recv", rl}, {"failed", fl}, {"ttype", tt}, {"sideq", both ? (*sid[0] == *sid[1] ? "eq" : "neq") : "na"}, {"avail", av}, {"complete", co}});
     }
 };
+
 } // namespace
 
 int main(int argc, char** argv)
